@@ -1,6 +1,6 @@
 """C12 Connection pools keep exact accounting and close what they open (W-FULL, small-capacity knobs)."""
 from dsim import seams
-from dsim.core import HarnessError
+from dsim.core import HarnessError, Deadlock
 from props.common import gen_strategy, quiet_logging, Violations, set_knob
 from worlds.reqpath import ReqPathRun, base_plan, RETRY_NEXT_HOST, RETHROW
 from worlds.full import ReqObs
@@ -263,9 +263,21 @@ def run_plan(plan, seed, choices=None):
     HC = w.cpool.HostConnection
     # observe trashing
     orig_replace = HC._replace.__wrapped__ if hasattr(HC._replace, '__wrapped__') else None
-    status = run.run(settle=4.0)
-    w.drain()
+    deadlock = None
+    try:
+        status = run.run(settle=4.0)
+        w.drain()
+    except Deadlock as e:
+        # every thread blocked for good while a pool/session/cluster shutdown is in progress: the pool can never finish closing
+        # what it opened (anything else that deadlocks stays a harness matter)
+        if run.st.get('shutdown_start') is None or run.st.get('shutdown_end') is not None:
+            raise
+        status, deadlock = 'deadlock', str(e)
     V = Violations()
+    if deadlock:
+        V.check('C12/closed-all')
+        V.add('C12/closed-all', 'shutdown-deadlocked', 'shutdown() (seq %d) never returned, every thread is blocked: %s; %d socket(s) still open'
+              % (run.st['shutdown_start'], deadlock, len([s for s in w.net.all_socks if not s.closed])))
     nontrivial = False
     # ---- in_flight bounds
     V.check('C12/non-negative', sim.steps)
